@@ -1863,14 +1863,17 @@ func (c *Ctx) rulesR4fresh() {
 
 // rulesR4nilctx: C20.nilctx
 func (c *Ctx) rulesR4nilctx() {
-	c.rule("C20.nilctx", "an exported function or method of pkg/machine that takes a context.Context invokes it (Err, Done, Value, Deadline) only under a ctx != nil check, in its own body and in the closures it starts: the API documents the context of the wait and fork helpers as optional (nil is passed throughout the repository), and a method call on a nil interface panics - inside a goroutine started by Go/GoAfter that kills the process")
+	c.rule("C20.nilctx", "an exported function or method of pkg/machine or pkg/integrations that takes a context.Context invokes it (Err, Done, Value, Deadline) only under a ctx != nil check, in its own body and in the closures it starts: the API documents the context of the wait and fork helpers as optional (nil is passed throughout the repository), and a method call on a nil interface panics - inside a goroutine started by Go/GoAfter that kills the process")
 	n := 0
 	isCtx := func(t types.Type) bool {
 		nt := namedOf(t)
 		return nt != nil && nt.Obj().Pkg() != nil && nt.Obj().Pkg().Path() == "context" && nt.Obj().Name() == "Context"
 	}
 	for _, f := range c.Funcs {
-		if f.Parent() != nil || f.Pkg == nil || relPkg(f.Pkg.Pkg.Path()) != pm || !isExportedFunc(f) {
+		if f.Parent() != nil || f.Pkg == nil || !isExportedFunc(f) {
+			continue
+		}
+		if rp := relPkg(f.Pkg.Pkg.Path()); rp != pm && rp != "pkg/integrations" {
 			continue
 		}
 		if f.Name() == "New" || f.Name() == "NewCommon" {
